@@ -2,7 +2,7 @@
    Model: Model/Data.v (hand model of src/data.c, tied by lib/props/c13.py).  wf = the representation invariant of
    data.c:23-93; `built` = every object obtainable by any tree of create/concat/subrange/map/copy_region/flatten.
    All offsets, lengths and locations range over the whole of size_t (0 <= x < 2^64). *)
-From Coq Require Import ZArith List Bool.
+From Coq Require Import ZArith List Bool Lia Permutation.
 From Verif Require Import Word Data Data_proofs.
 Import ListNotations.
 Local Open Scope Z_scope.
@@ -75,26 +75,45 @@ Theorem C13_no_read_outside : forall fresh d off len loc f, wf d -> fresh <> EMP
 Proof. exact no_fault. Qed.
 Print Assumptions C13_no_read_outside.
 
-(* OWNERSHIP.  Full statement (NOT proved, kept here as the goal):
-     for every history of create / concat / subrange / map / copy_region / retain / release calls from st0 in which the
-     client only passes objects it holds a reference to and uses never-used ids for new objects (legal histories), with
-     held k = number of references the client holds on object k:
-       (1) NoDup (dlog st)                                                        -- a destructor never runs twice;
-       (2) In k (dlog st) -> held k = 0 /\ no live object has a record on leaf k   -- only after the object and everything
-                                                                                     derived from it have been released;
-       (3) (forall k, held k = 0) -> heap st = empty /\ dlog st is a permutation of the created leaves -- exactly once.
-   The missing piece is the reference-count invariant  e_rc = held + number of records of live composites on the leaf
-   (a counting argument over the heap; not done).  What IS proved: (1), together with "a destroyed buffer's object is gone",
-   for every history whose steps use never-destroyed ids for new objects and never return a destroyed object
-   (result_ok; for results that are new objects or the operand this follows from op_fresh_ok / liveness of the operand, for
-   results that are a record's leaf it is exactly what the missing invariant would give).  (2),(3) and result_ok are
-   covered by the correspondence runs only: destructor calls, their order and final counts are compared with the model and
-   judged against provenance kept by the checker on every generated balanced history. *)
-Theorem C13_destructor_at_most_once_partial : forall ops st',
-  history_ok st0 ops -> run st0 ops = Some st' ->
-  NoDup (dlog st') /\ forall k, In k (dlog st') -> heap st' k = None.
-Proof. intros ops st'. exact (destructor_at_most_once ops st0 st' dinv_st0). Qed.
-Print Assumptions C13_destructor_at_most_once_partial.
+(* OWNERSHIP.  Histories of create / concat / subrange / map / copy_region / flatten / retain / release calls from the
+   empty heap, with the client's bookkeeping (Data.gstate): g_held k = references the client holds on object k,
+   g_created = buffers that were given a destructor.  glegal: the client is well-behaved, nothing else -- it passes only
+   objects it holds (or the empty singleton), releases only references it holds, passes size_t arguments, and new
+   objects get never-used identities (in C: new allocations).  grun = Some g: the calls returned objects (the only call
+   that may return none is a concat whose total size does not fit in size_t).
+   Proved through the reference-count invariant
+       e_rc k = g_held k + number of records of live composites that point at k      (Data_proofs.GInv). *)
+
+(* (1) a buffer's destructor runs only after the object and everything derived from it have been released: in every
+   reachable state, a destroyed buffer's object is gone, the client holds no reference to it, and no live object has a
+   record on it *)
+Theorem C13_destructor_only_after_release : forall ops g, glegal g0 ops -> grun g0 ops = Some g ->
+  forall k, In k (dlog (g_st g)) ->
+    heap (g_st g) k = None /\ g_held g k = 0%nat /\
+    (forall j e, heap (g_st g) j = Some e -> ~ In k (rids (e_obj e))).
+Proof. exact destructor_only_after_release. Qed.
+Print Assumptions C13_destructor_only_after_release.
+
+(* the same, seen from the users: whatever the client holds is alive, and every record of a live object points at a
+   live, undestroyed leaf holding exactly the bytes the record was made from (no use after free) *)
+Theorem C13_live_while_referenced : forall ops g, glegal g0 ops -> grun g0 ops = Some g ->
+  (forall k, (0 < g_held g k)%nat -> heap (g_st g) k <> None /\ ~ In k (dlog (g_st g))) /\
+  (forall j e r, heap (g_st g) j = Some e -> In r (crecs (e_obj e)) ->
+     ~ In (l_id (r_obj r)) (dlog (g_st g)) /\
+     exists e', heap (g_st g) (l_id (r_obj r)) = Some e' /\ e_obj e' = DLeaf (r_obj r)).
+Proof. exact live_while_referenced. Qed.
+Print Assumptions C13_live_while_referenced.
+
+(* (2) exactly once: no destructor runs twice, only created buffers are destroyed, and on every balanced history (the
+   client has released all its references) the heap is empty and the destructor log is a permutation of the created
+   buffers *)
+Theorem C13_destructor_exactly_once : forall ops g, glegal g0 ops -> grun g0 ops = Some g ->
+  NoDup (dlog (g_st g)) /\ NoDup (g_created g) /\
+  (forall k, In k (dlog (g_st g)) -> In k (g_created g)) /\
+  ((forall k, g_held g k = 0%nat) ->
+     (forall k, heap (g_st g) k = None) /\ Permutation (g_created g) (dlog (g_st g))).
+Proof. exact destructor_exactly_once. Qed.
+Print Assumptions C13_destructor_exactly_once.
 
 Example C13_nonvacuous :
   let a := DLeaf (mkLeaf 1 [10;11;12;13;14]) in
@@ -123,8 +142,15 @@ Proof.
     unfold M64; split; (vm_compute; congruence) || reflexivity.
 Qed.
 
-(* the hypothesis of C13_destructor_at_most_once_partial is satisfiable on a history that shares and destroys buffers *)
+(* the hypotheses of the ownership theorems are satisfiable on a balanced history that shares and destroys buffers *)
 Example C13_history_nonvacuous :
-  history_ok st0 [OCreate 1 [10;11;12;13;14]; OCreate 2 [20;21;22]; OConcat 3 1 2; OSubrange 4 3 5 3;
-                  ORelease 1; ORelease 2; ORelease 3; ORelease 4].
-Proof. cbv. intuition (try discriminate; try congruence). Qed.
+  let ops := [OCreate 1 [10;11;12;13;14]; OCreate 2 [20;21;22]; OConcat 3 1 2; OSubrange 4 3 5 3; OCopyRegion 5 3 1;
+              OSubrange 6 3 2 4; ORelease 1; ORelease 2; ORelease 3; ORetain 6; ORelease 2; ORelease 1; ORelease 6; ORelease 6] in
+  (* call 4 returns buffer 2 itself, call 5 returns buffer 1 itself (whole leaves), call 6 a new two-record object *)
+  glegal g0 ops /\ exists g, grun g0 ops = Some g /\ dlog (g_st g) = [1; 2] /\ g_created g = [1; 2] /\
+                           g_held g 1 = 0%nat /\ g_held g 6 = 0%nat.
+Proof.
+  split.
+  - vm_compute. intuition (try discriminate; try congruence; try lia).
+  - eexists. split; [vm_compute; reflexivity|]. repeat split; reflexivity.
+Qed.
